@@ -1,7 +1,7 @@
 (* Properties/C13.v — Headers and uncles are accepted iff they satisfy the consensus rules.
    Only statements closed by `exact`, with Print Assumptions under each. *)
 From AQ Require Import Lib.Bytes Generated.GenParamsConsensus
-  Consensus.HeaderModel Consensus.HeaderSpec Consensus.HeaderProofs Consensus.BatchProofs Consensus.ChainModel Consensus.ChainProofs.
+  Consensus.HeaderModel Consensus.HeaderSpec Consensus.HeaderProofs Consensus.BatchProofs Consensus.ChainModel Consensus.ChainProofs Consensus.DifficultyExtraModel Consensus.DifficultyProofs Consensus.AbortModel Consensus.AbortProofs.
 Local Open Scope Z_scope.
 
 (* verifyHeader accepts exactly when, relative to the parent: number = parent + 1, timestamp strictly later and
@@ -108,6 +108,59 @@ Theorem C13_grandparent_panic_refuted : exists c time p g, calc_difficulty c tim
 Proof. exact grandparent_panic_refuted. Qed.
 Print Assumptions C13_grandparent_panic_refuted.
 
+(* size of one adjustment step.  Simple rule (from HF2): at most parent/divisor up or down, never below the minimum;
+   homestead-style rules (before HF2): up by at most parent/2048, down by at most 99*(parent/2048) *)
+Theorem C13_simple_step_bound :
+  forall (c : cfg) (time : Z) (p : header) (gp : option header) (d : Z),
+    spec_algo c (h_number p + 1) = ASimple ->
+    calc_difficulty c time p gp = Ok d ->
+    0 <= h_diff p ->
+    spec_minimum c (h_number p + 1) <= d /\
+    h_diff p - h_diff p / spec_divisor c (h_number p + 1) <= d /\
+    d <= Z.max (spec_minimum c (h_number p + 1)) (h_diff p + h_diff p / spec_divisor c (h_number p + 1)) /\
+    (spec_minimum c (h_number p + 1) <= h_diff p -> Z.abs (d - h_diff p) <= h_diff p / spec_divisor c (h_number p + 1)).
+Proof. exact simple_step_bound. Qed.
+Print Assumptions C13_simple_step_bound.
+
+Theorem C13_homestead_step_bound :
+  forall (c : cfg) (time : Z) (p : header) (gp : option header) (d : Z) (hf1 : bool),
+    spec_algo c (h_number p + 1) = AHomestead hf1 ->
+    calc_difficulty c time p gp = Ok d ->
+    0 <= h_diff p -> h_time p <= time ->
+    h_diff p - 99 * (h_diff p / 2048) <= d /\
+    d <= Z.max (if hf1 then 100001792 else 99999999) (h_diff p + h_diff p / 2048).
+Proof. exact homestead_step_bound. Qed.
+Print Assumptions C13_homestead_step_bound.
+
+(* never below the active minimum on every built-in proof-of-work schedule with HF2 (mainnet, testnet, test, dev):
+   every height, parent, timestamp and grandparent (testnet2 / testnet3: C13_difficulty_ge_minimum_refuted) *)
+Theorem C13_builtin_difficulty_ge_minimum :
+  forall (time : Z) (p : header) (gp : option header) (d : Z),
+    0 <= h_number p ->
+    (calc_difficulty mainnet_cfg time p gp = Ok d -> spec_minimum mainnet_cfg (h_number p + 1) <= d) /\
+    (calc_difficulty testnet_cfg time p gp = Ok d -> spec_minimum testnet_cfg (h_number p + 1) <= d) /\
+    (calc_difficulty test_cfg time p gp = Ok d -> spec_minimum test_cfg (h_number p + 1) <= d) /\
+    (calc_difficulty dev_cfg time p gp = Ok d -> spec_minimum dev_cfg (h_number p + 1) <= d).
+Proof. exact builtin_difficulty_ge_minimum. Qed.
+Print Assumptions C13_builtin_difficulty_ge_minimum.
+
+(* calcDifficultyTestnet3 (unreferenced in this tree): on increasing timestamps it raises the difficulty by 1000 for a
+   block within 10 s and otherwise keeps it — the grandparent difference is taken as grandparent - parent, so the
+   lowering and halving branches are never taken; it has no minimum *)
+Theorem C13_testnet3_on_increasing_timestamps :
+  forall (time : Z) (p g : header),
+    h_time g < h_time p ->
+    calc_testnet3 time p (Some g) = if time - h_time p <? 10 then h_diff p + 1000 else h_diff p.
+Proof. exact testnet3_on_increasing_timestamps. Qed.
+Print Assumptions C13_testnet3_on_increasing_timestamps.
+
+Theorem C13_testnet3_cases :
+  forall (time : Z) (p : header) (gp : option header),
+    calc_testnet3 time p gp = h_diff p \/ calc_testnet3 time p gp = h_diff p + 1000 \/
+    calc_testnet3 time p gp = h_diff p - 1000 \/ calc_testnet3 time p gp = Z.quot (h_diff p) 2.
+Proof. exact testnet3_cases. Qed.
+Print Assumptions C13_testnet3_cases.
+
 (* uncles: accepted iff at most max(fork) (2, then 1 from HF5), the block's version is set, and every uncle is
    not already included / not the block / not repeated, not an ancestor, has its parent among the up-to-7 ancestors
    (or, as the code allows, the block itself) and not the block's own parent, and is a valid header on it —
@@ -200,6 +253,22 @@ Theorem C13_collector_terminates :
                     (length (sched ++ rest) <= 2 * n)%nat.
 Proof. exact collector_terminates. Qed.
 Print Assumptions C13_collector_terminates.
+
+(* the abort channel of VerifyHeaders as a logical operation: whenever the caller aborts — at any point of any schedule —
+   what has been delivered so far is, in input order, what the workers compute for the first k headers, i.e. a prefix of
+   what the un-aborted run delivers; nothing is delivered after the abort *)
+Theorem C13_abort_prefix :
+  forall (v : nat -> res unit) (n : nat) (es : list aevent) (s : bstate) (ab : bool),
+    arun v n b_init false es = Some (s, ab) ->
+    exists k, b_delivered s = map v (seq 0 k) /\
+              (b_finished s = true -> b_delivered s = map v (seq 0 n)).
+Proof. exact abort_prefix. Qed.
+Print Assumptions C13_abort_prefix.
+
+Theorem C13_aborted_collector_is_inert :
+  forall (v : nat -> res unit) (n : nat) (s : bstate) (es : list aevent), arun v n s true es = Some (s, true).
+Proof. exact arun_aborted. Qed.
+Print Assumptions C13_aborted_collector_is_inert.
 
 (* header-first import (core/headerchain.go ValidateHeaderChain).  The seal sample, for EVERY stream of random numbers:
    one flag per header, the last header always sampled, every complete window of checkFreq headers contains a sampled one;
@@ -312,3 +381,17 @@ Example C13_batch_example :
   option_map (fun s => (b_delivered s, b_finished s))
     (brun v 4 b_init [Dispatch; Dispatch; Complete 1; Dispatch; Complete 0; Dispatch; Complete 3]) = Some ([Ok tt; Ok tt], false).
 Proof. exact batch_example. Qed.
+
+Example C13_testnet3_example :
+  let p := {| h_hash := []; h_parent := []; h_number := 9; h_time := 1000; h_diff := 5000; h_gas_limit := 0; h_gas_used := 0; h_extra_len := 0; h_seal := 0 |} in
+  let g t := {| h_hash := []; h_parent := []; h_number := 8; h_time := t; h_diff := 7; h_gas_limit := 0; h_gas_used := 0; h_extra_len := 0; h_seal := 0 |} in
+  map (fun '(t, gt) => calc_testnet3 t p (Some (g gt))) [(1005, 900); (1010, 900); (1030, 1030); (1030, 900); (1200, 1200); (1015, 1015)]
+  = [6000; 5000; 4000; 5000; 4000; 5000] /\ calc_testnet3 1005 p None = 5000.
+Proof. exact testnet3_example. Qed.
+
+Example C13_abort_example :
+  let v := fun i : nat => if Nat.eqb i 2 then @Err unit EZeroTime else Ok tt in
+  option_map (fun '(s, ab) => (b_delivered s, ab))
+    (arun v 4 b_init false [AEv Dispatch; AEv Dispatch; AEv (Complete 1); AEv (Complete 0); AAbort; AEv Dispatch; AEv (Complete 2)])
+  = Some ([Ok tt; Ok tt], true).
+Proof. exact abort_example. Qed.
